@@ -11,6 +11,7 @@ pub mod history;
 pub mod jsondelta;
 pub mod ops;
 pub mod outputs;
+pub mod rrdp;
 pub mod rtrsrv;
 pub mod sched;
 pub mod server;
@@ -31,6 +32,7 @@ pub fn all() -> Vec<&'static Check> {
         &worlds2::C09,
         &worlds2::C10,
         &ops::C37,
+        &rrdp::C38,
         &worlds2::C39,
         &hist2::C40,
         &worlds2::C41,
